@@ -12,7 +12,7 @@ from mc.par import Result
 
 LEVEL = "exploration"
 
-KINDS = ["snv", "ins", "del", "hom0", "hom1", "miss", "partial", "multi", "sym", "dup", "noalt", "prePS", "preHP"]
+KINDS = ["snv", "ins", "del", "hom0", "hom1", "miss", "partial", "multi", "sym", "dup", "noalt", "prePS", "preHP", "multiP", "noaltP"]
 SAMPLES = ["S1", "S2", "S3"]
 NPROFILES = 5
 
@@ -31,11 +31,11 @@ def record_spec(seq, pos, kind, prev):
     if kind == "del":
         v = synth.make_variant(seq, pos, "DEL", 2)
         return pos, v.ref, v.alts, (0, 1)
-    if kind == "multi":
+    if kind in ("multi", "multiP"):
         return pos, b, [o, synth.other_base(b, 2)], None
     if kind == "sym":
         return pos, b, ["<DEL>"], None
-    if kind == "noalt":
+    if kind in ("noalt", "noaltP"):
         return pos, b, [], None
     if kind in ("snv", "prePS", "preHP"):
         return pos, b, [o], (0, 1)
@@ -46,6 +46,7 @@ def s1_gt(kind):
     return {
         "snv": "0/1", "ins": "0/1", "del": "0/1", "hom0": "0/0", "hom1": "1/1", "miss": "./.", "partial": "0/.", "multi": "1/2",
         "sym": "0/1", "dup": "0/1", "noalt": "0/0", "prePS": "0|1", "preHP": "0/1",
+        "multiP": "1|2", "noaltP": "0|0",  # records the tool never phases itself, phased in the input
     }[kind]
 
 
@@ -59,6 +60,8 @@ def build(kinds, profile, scratch, seed):
         if k in ("del",):
             specs.append((p, "DEL", 2))
     seqs[0] = ("chr1", synth.make_unshiftable(seqs[0][1], specs))
+    if profile in (1, 3):
+        seqs.append(("chrUn", synth.make_reference(seed + 2, 300)))
     fasta = synth.write_fasta(os.path.join(scratch, "ref.fa"), seqs)
     infos, formats, filters, extra = [], ["GT", "PS", "HP"], [], []
     if profile == 1:
@@ -76,7 +79,7 @@ def build(kinds, profile, scratch, seed):
     if any(k == "sym" for k in kinds):
         infos = list(infos) + ["END", "SVTYPE"]
     vcf = synth.VcfText(SAMPLES, contigs=contigs, formats=formats, infos=infos, filters=filters, extra_header=extra)
-    truth = {"chr1": [], "chr2": []}
+    truth = {"chr1": [], "chr2": [], "chrUn": []}
     prev = None
     for i, k in enumerate(kinds):
         pos, ref, alts, het = record_spec(seqs[0][1], 60 + 45 * i, k, prev)
@@ -86,7 +89,7 @@ def build(kinds, profile, scratch, seed):
         # records in which the first sample is not heterozygous but the others are: a processed record with an
         # unphased target call next to phased ones
         others_het = k in ("hom0", "hom1", "miss", "partial")
-        gts["S2"] = ("1/0" if i % 2 == 0 else "1|0") if (biallelic_plain or others_het) else ("1/2" if k == "multi" else "0/0")
+        gts["S2"] = ("1/0" if i % 2 == 0 else "1|0") if (biallelic_plain or others_het) else ("1/2" if k in ("multi", "multiP") else "0/0")
         gts["S3"] = "1|0" if (biallelic_plain or others_het) else "./."
         fmt = ["GT"]
         calls = {s: {"GT": g} for s, g in gts.items()}
@@ -137,6 +140,11 @@ def build(kinds, profile, scratch, seed):
         b = seqs[1][1][p]
         vcf.add("chr2", p, b, [synth.other_base(b)], [{"GT": "0/1"}, {"GT": "0/1"}, {"GT": "1|0", "PS": "9"}], fmt=["GT", "PS"])
         truth["chr2"].append((p, b, [synth.other_base(b)], (0, 1), {}))
+    if profile in (1, 3):
+        # a last contig whose only records are ones the reader does not load (multi-ALT, no ALT)
+        b = seqs[2][1][40]
+        vcf.add("chrUn", 40, b, [synth.other_base(b), synth.other_base(b, 2)], [{"GT": "1/2"}, {"GT": "0/1"}, {"GT": "1|2", "PS": "9"}], fmt=["GT", "PS"])
+        vcf.add("chrUn", 80, seqs[2][1][80], [], [{"GT": "0/0"}, {"GT": "0/0"}, {"GT": "0/0"}], fmt=["GT"])
     vcf_path = vcf.write(os.path.join(scratch, "in.vcf"))
     # reads: one long error-free read per haplotype and sample over each chromosome
     alns = []
@@ -211,7 +219,7 @@ def judge(inst):
         viols.append(V("malformed-output", f"the output contains control characters {bad}: {line[:200]!r}"))
     inp = synth.parse_vcf(paths["vcf"])
     sel_samples = opts.get("samples") or SAMPLES
-    sel_chroms = opts.get("chromosomes") or ["chr1", "chr2"]
+    sel_chroms = opts.get("chromosomes") or ["chr1", "chr2", "chrUn"]
     distrust = opts.get("distrust_genotypes", False)
     only_snvs = opts.get("only_snvs", False)
     if len(inp["records"]) != len(parsed["records"]):
